@@ -128,7 +128,29 @@ def c06c(tree, ob):
         ob.site(FRAG, c, 'coverage updated after the splice')
 
 
+def _reassembled_primary(tree, ob):
+    ''' The synthesized bundle carries the primary block as originated: only the fragment flag (and with it the two fragment
+    fields) goes, and the CRC value is refreshed.  Anything else changes what a security block covers. '''
+    fv = FuncView(tree, FRAG, 'Fragment._reassemble')
+    bad = []
+    for n in walk_local(fv.func):
+        if isinstance(n, (ast.Assign, ast.AugAssign)):
+            for t in (n.targets if isinstance(n, ast.Assign) else [n.target]):
+                tx = src(t)
+                if tx.startswith('rctr.bundle.primary.') and not (tx == 'rctr.bundle.primary.bundle_flags' and 'IS_FRAGMENT' in src(n.value)):
+                    bad.append((tx, n))
+    for (tx, n) in bad:
+        ob.violate(FRAG, fv.qual, src(n), 'the primary block of the reassembled bundle is rewritten ({}): the encoded primary block is covered by BPSec, so a correctly signed bundle that was '
+                   'fragmented on its way fails verification after reassembly'.format(tx.split('.')[-1]), n)
+    ups = [c for c in calls_in(fv.func) if src(c) == 'rctr.bundle.primary.update_crc()']
+    if not bad and ups:
+        ob.site(FRAG, ups[0], 'reassembled primary block: fragment flag cleared, CRC value refreshed, nothing else')
+    elif not bad:
+        ob.violate(FRAG, fv.qual, 'rctr.bundle.primary (CRC not refreshed)', 'the CRC of the primary block is not recomputed after the fragment fields went', fv.func)
+
+
 def c06d(tree, ob):
+    _reassembled_primary(tree, ob)
     fv = FuncView(tree, FRAG, Q)
     clears = [c for c in calls_in(fv.func) if pm('ctr.actions.clear()', c) is not None]
     # paths that pass both guards
